@@ -109,4 +109,19 @@ def GoodOutcome (N : Nat) : Outcome → Prop
   | .panic => False
   | .outOfFuel => False
 
+/-- a table is well chunked: every chunk but the last has exactly 32 elements and
+no chunk is empty, so that `tab[i/32][i%32]` is the flat index `i` -/
+def wellChunked {α : Type} : Tab α → Bool
+  | [] => true
+  | [c] => !c.isEmpty && decide (c.length ≤ 32)
+  | c :: r => decide (c.length = 32) && wellChunked r
+
+/-- no state shifts the parser token `tok` -/
+def neverShifted (T : Tables) (tok : Int) : Bool :=
+  (List.range (NS T)).all fun s =>
+    match action T s tok with
+    | some (.shift _) => false
+    | some _ => true
+    | none => false
+
 end Martian.LexerLR
